@@ -993,6 +993,10 @@ class GroupCoordinator(BaseCoordinator):
         """
         while True:
             await self.ensure_coordinator_known()
+            if self.coordinator_id is None and self._closing.done():
+                # ensure_coordinator_known() gives up once we are closing; do
+                # not spin here forever, close() must be able to finish
+                raise Errors.GroupCoordinatorNotAvailableError()
             try:
                 async with self._commit_lock:
                     await asyncio.shield(self._do_commit_offsets(assignment, offsets))
